@@ -1,8 +1,8 @@
 #!/verif/.venv/bin/python
 # Replay of a solver counterexample against the unmodified code (no shims).
-# property=C17 kernel=device label=k2:device_channel_ids
+# property=C17 kernel=results label=k4:results_same_instances
 import sys
 sys.path[:0] = ['/repo' + "/pulser-core", '/repo' + "/pulser-simulation", "/verif"]
 from symx.replay import replay
-sys.exit(replay(check='checks.c17', kernel='device', shape={'opt': ['eom'], 'virtual': True},
-                assignment={'clock': 1, 'mind': 64, 'maxd': 64, 'eom_amp': '1/1', 'eom_det': '100/1', 'eom_bw': '1/1', 'g_maxdet': '1/1', 'g_maxamp': '1/1', 'l_maxdet': '1/1', 'l_maxamp': '1/1', 'retarget': 0, 'fixedt': 0, 'bottom': '1/1', 'mindist': '0/1'}, label='k2:device_channel_ids'))
+sys.exit(replay(check='checks.c17', kernel='results', shape={'n_obs': 3, 'tags': ['energy', 'occupation', 'energy'], 'n_times': 1},
+                assignment={'total_duration': 1, 't0_0': '1/1024', 'v0_0': '0/1', 't1_0': '1/1024', 'v1_0': '0/1', 't2_0': '1/1024', 'v2_0': '0/1'}, label='k4:results_same_instances'))
